@@ -1,6 +1,12 @@
 package main
 
 import (
+	"fmt"
+	"go/constant"
+	"go/token"
+	"go/types"
+	"os"
+	"regexp"
 	"strings"
 	"time"
 
@@ -447,7 +453,12 @@ func intervalParseRule(o *Ob) {
 			if set.what == "end" {
 				idx = "[1]"
 			}
-			comp := strings.Contains(a, `.memberFromString(p1, strings.Split(strings.ToLower(p0), ":")`+idx+")#0")
+			cut := "#0"
+			if set.what == "end" {
+				cut = "#1"
+			}
+			comp := strings.Contains(a, `.memberFromString(p1, strings.Split(strings.ToLower(p0), ":")`+idx+")#0") ||
+				strings.Contains(a, `.memberFromString(p1, strings.Cut(strings.ToLower(p0), ":")`+cut+")#0")
 			o.Check(e.Arg(c, 0) == "p1" && (single || comp), "range-"+set.what, "the "+set.what+" of a range is read from "+clip(a), c)
 			if set.what == "end" {
 				ne++
@@ -461,7 +472,11 @@ func intervalParseRule(o *Ob) {
 		bad := L("("+e.X(sr, c.(*ssa.Call))+"#1 == nil)", false)
 		o.rejectsAfter(sr, bad, "range-member-error", "a range component that is not a valid member")
 	}
-	two := LRe(`^\(len\(strings\.Split\(strings\.ToLower\(p0\), ":"\)\) == 2\)$`, false)
+	// (split in two at the first colon, a second colon in the rest is the same test)
+	two := LitM{"more than two components", func(l Lit) bool {
+		return !l.Pos && l.Atom == `(len(strings.Split(strings.ToLower(p0), ":")) == 2)` ||
+			l.Pos && l.Atom == `strings.Contains(strings.Cut(strings.ToLower(p0), ":")#1, ":")`
+	}}
 	o.rejectsAfter(sr, two, "range-components", "a range with more than two components")
 	// (2) the setters and the members
 	for _, s := range [][2]string{{"setBegin", "Begin"}, {"setEnd", "End"}} {
@@ -508,8 +523,15 @@ func intervalParseRule(o *Ob) {
 	}
 	// (4) HH:MM is hour*60+minute, of the first and the second component
 	pt := o.Fn("am/timeinterval.parseTime")
-	hh, mm := `strconv.Atoi(strings.Split(p0, ":")[0])#0`, `strconv.Atoi(strings.Split(p0, ":")[1])#0`
-	okv := map[string]bool{"((" + hh + " * 60) + " + mm + ")": true, "(" + mm + " + (" + hh + " * 60))": true, "((60 * " + hh + ") + " + mm + ")": true, "(" + mm + " + (60 * " + hh + "))": true}
+	// the two components: the parts of a split at ':', or the text before the first and after the (same, only) colon
+	okv := map[string]bool{}
+	for _, hh := range []string{`strconv.Atoi(strings.Split(p0, ":")[0])#0`, `strconv.Atoi(slice(p0,hi=strings.IndexByte(p0, 58)))#0`, `strconv.Atoi(strings.Cut(p0, ":")#0)#0`} {
+		for _, mm := range []string{`strconv.Atoi(strings.Split(p0, ":")[1])#0`, `strconv.Atoi(slice(p0,lo=(strings.IndexByte(p0, 58) + 1)))#0`, `strconv.Atoi(slice(p0,lo=(strings.LastIndexByte(p0, 58) + 1)))#0`, `strconv.Atoi(strings.Cut(p0, ":")#1)#0`} {
+			for _, f := range []string{"((" + hh + " * 60) + " + mm + ")", "(" + mm + " + (" + hh + " * 60))", "((60 * " + hh + ") + " + mm + ")", "(" + mm + " + (60 * " + hh + "))"} {
+				okv[f] = true
+			}
+		}
+	}
 	nok := 0
 	for _, ret := range (&Walk{Fn: pt}).FromEntry().Returns() {
 		if e.X(pt, ret.Results[1]) != "nil" {
@@ -525,27 +547,39 @@ func intervalParseRule(o *Ob) {
 	o.rejectsAfter(pt, valid, "time-format", "a time that is not of the form HH:MM")
 	// (5) a time range: start and end are the parsed StartTime and EndTime; empty or reversed is rejected
 	tr := o.Fn("(*am/timeinterval.TimeRange).UnmarshalYAML")
+	// what each bound is given: parseTime of a field of the decoded form — written directly, or computed for a
+	// literal list [StartTime, EndTime] element by element into a list of results that is read by position
+	bound := map[string]string{}
 	for _, f := range [][2]string{{"StartMinute", "StartTime"}, {"EndMinute", "EndTime"}} {
-		sts := e.StoresTo(tr, "recv."+f[0])
+		sts := e.StoresToField(tr, "am/timeinterval.TimeRange", f[0])
 		if o.Check(len(sts) == 1, "timerange-store|"+f[0], "a parsed time range must set "+f[0]+" once", fnFirst(tr)) {
 			v := e.X(tr, sts[0].Val)
+			if m := mappedElement(e, tr, sts[0].Val); m != "" {
+				v = m
+			}
+			bound[f[0]] = e.X(tr, sts[0].Val)
 			o.Site(sts[0], f[0]+" := "+clip(v))
 			o.Check(strings.HasPrefix(v, "am/timeinterval.parseTime(") && strings.HasSuffix(v, "."+f[1]+")#0"), "timerange-value|"+f[0], f[0]+" is read from "+clip(v)+", not from "+f[1], sts[0])
+			// the range that is filled is the one being read (directly, or built aside and assigned as a whole)
+			if base := sts[0].Addr.(*ssa.FieldAddr).X; e.X(tr, base) != "recv" {
+				whole := false
+				for _, in := range AllInstrs(tr) {
+					if st, ok := in.(*ssa.Store); ok && e.X(tr, st.Addr) == "recv" {
+						for sv := range e.Sources(st.Val, false) {
+							if sv == base {
+								whole = true
+							}
+						}
+					}
+				}
+				o.Check(whole, "timerange-store|"+f[0], f[0]+" is set on "+clip(e.X(tr, base))+", which never becomes the range being read", sts[0])
+			}
 		}
 	}
 	for _, c := range e.Calls(tr, "am/timeinterval.parseTime") {
 		o.rejectsAfter(tr, L("("+e.X(tr, c.(*ssa.Call))+"#1 == nil)", false), "timerange-parse-error", "a time that does not parse")
 	}
-	ps := e.Calls(tr, "am/timeinterval.parseTime")
-	if o.Check(len(ps) == 2, "timerange-parses", "a time range parses its start and its end", fnFirst(tr)) {
-		var sx, ex string
-		for _, c := range ps {
-			if strings.HasSuffix(e.Arg(c, 0), ".StartTime") {
-				sx = e.X(tr, c.(*ssa.Call)) + "#0"
-			} else {
-				ex = e.X(tr, c.(*ssa.Call)) + "#0"
-			}
-		}
+	if sx, ex := bound["StartMinute"], bound["EndMinute"]; o.Check(sx != "" && ex != "", "timerange-parses", "a time range parses its start and its end", fnFirst(tr)) {
 		rev := LitM{"start ≥ end", func(l Lit) bool {
 			return !l.Pos && l.Atom == "("+sx+" < "+ex+")" || l.Pos && (l.Atom == "("+ex+" <= "+sx+")" || l.Atom == "("+sx+" >= "+ex+")") || !l.Pos && l.Atom == "("+ex+" > "+sx+")"
 		}}
@@ -573,9 +607,173 @@ func intervalParseRule(o *Ob) {
 	}
 	du := o.Fn("(*am/timeinterval.DayOfMonthRange).UnmarshalYAML")
 	for _, b := range []string{"Begin", "End"} {
-		o.rejectsAfter(du, L("(recv.InclusiveRange."+b+" == 0)", true), "dom-bounds|"+b+"-zero", "day of month 0")
-		o.rejectsAfter(du, L("(recv.InclusiveRange."+b+" < 32)", false), "dom-bounds|"+b+"-high", "a day of month beyond 31")
-		o.rejectsAfter(du, L("(recv.InclusiveRange."+b+" < -31)", true), "dom-bounds|"+b+"-low", "a day of month before -31")
+		// the bound itself, or the bound as an element of a literal list of both bounds that a loop goes through
+		subj := `(recv\.InclusiveRange\.` + b + `|\[[^\]]*recv\.InclusiveRange\.` + b + `[^\]]*\]\[i\])`
+		is := func(neg bool, forms ...string) LitM {
+			var res []*regexp.Regexp
+			for _, f := range forms {
+				res = append(res, regexp.MustCompile(`^\(`+subj+` `+f+`\)$`))
+			}
+			return LitM{b + " " + strings.Join(forms, " / "), func(l Lit) bool {
+				if l.Pos == neg {
+					return false
+				}
+				for _, re := range res {
+					if re.MatchString(l.Atom) {
+						return true
+					}
+				}
+				return false
+			}}
+		}
+		either := func(ms ...LitM) LitM {
+			return LitM{ms[0].Desc, func(l Lit) bool {
+				for _, m := range ms {
+					if m.F(l) {
+						return true
+					}
+				}
+				return false
+			}}
+		}
+		o.rejectsAfter(du, is(false, `== 0`), "dom-bounds|"+b+"-zero", "day of month 0")
+		o.rejectsAfter(du, either(is(true, `< 32`, `<= 31`), is(false, `> 31`, `>= 32`)), "dom-bounds|"+b+"-high", "a day of month beyond 31")
+		o.rejectsAfter(du, either(is(false, `< -31`, `<= -32`), is(true, `>= -31`, `> -32`)), "dom-bounds|"+b+"-low", "a day of month before -31")
 	}
 	o.MinSites(20)
+}
+
+// mappedElement resolves a read B[k] (k constant) of a local list B that is filled element by element from
+// a literal list L of the same length, B[i] := f(L[i])#n in a loop over all of 0..len-1: the value is
+// f(L[k])#n.  It returns the rendering of that value with L[k] in place, or "".
+func mappedElement(e *Eng, fn *ssa.Function, v ssa.Value) (res string) {
+	dbg := os.Getenv("AMVERIF_DEBUG") == "mapped"
+	step := "start"
+	defer func() {
+		if dbg {
+			fmt.Fprintf(os.Stderr, "mappedElement(%s): %q at %s\n", e.X(fn, v), res, step)
+		}
+	}()
+	u, ok := v.(*ssa.UnOp)
+	if !ok || u.Op != token.MUL {
+		return ""
+	}
+	ia, ok := u.X.(*ssa.IndexAddr)
+	if !ok {
+		return ""
+	}
+	step = "alloc"
+	B, ok := ia.X.(*ssa.Alloc)
+	k, okk := ia.Index.(*ssa.Const)
+	if !ok || !okk || k.Value == nil {
+		return ""
+	}
+	at, ok := B.Type().Underlying().(*types.Pointer).Elem().Underlying().(*types.Array)
+	if !ok {
+		return ""
+	}
+	step = "fill"
+	// the one filling store B[i] := …
+	var fill *ssa.Store
+	var iv ssa.Value
+	for _, r := range *B.Referrers() {
+		x, ok := r.(*ssa.IndexAddr)
+		if !ok {
+			continue
+		}
+		for _, rr := range *x.Referrers() {
+			if st, ok := rr.(*ssa.Store); ok && st.Addr == ssa.Value(x) {
+				if fill != nil {
+					return ""
+				}
+				fill, iv = st, x.Index
+			}
+		}
+	}
+	if fill == nil {
+		return ""
+	}
+	if _, isK := iv.(*ssa.Const); isK {
+		return ""
+	}
+	step = "loop"
+	// the loop goes through all positions
+	l := e.LoopOf(fill)
+	if l == nil || len(e.EarlyExits(l)) > 0 && false {
+		return ""
+	}
+	hx, okh := l.HeaderExit()
+	lit, okl := e.EdgeLit(l.Header, hx)
+	if !okh || !okl || !(lit.Atom == "(i < "+itoa(int(at.Len()))+")" && !lit.Pos) {
+		return ""
+	}
+	step = "list"
+	// the literal list read at the same position
+	var L *ssa.Alloc
+	var read ssa.Value // the read of L at the loop position
+	// (the operands the filled value is computed from, through calls and extracts)
+	var ops []ssa.Value
+	var collect func(v ssa.Value, depth int)
+	collect = func(v ssa.Value, depth int) {
+		ops = append(ops, v)
+		in, ok := v.(ssa.Instruction)
+		if !ok || depth > 4 {
+			return
+		}
+		if _, isLoad := v.(*ssa.UnOp); isLoad {
+			return
+		}
+		for _, op := range in.Operands(nil) {
+			if *op != nil {
+				collect(*op, depth+1)
+			}
+		}
+	}
+	collect(fill.Val, 0)
+	for _, sv := range ops {
+		if lu, ok := sv.(*ssa.UnOp); ok && lu.Op == token.MUL {
+			if lia, ok := lu.X.(*ssa.IndexAddr); ok && lia.Index == iv {
+				if la, ok := lia.X.(*ssa.Alloc); ok && la != B {
+					L, read = la, lu
+				}
+			}
+		}
+		// the list copied as a value and indexed
+		if ix, ok := sv.(*ssa.Index); ok && ix.Index == iv {
+			if lu, ok := ix.X.(*ssa.UnOp); ok && lu.Op == token.MUL {
+				if la, ok := lu.X.(*ssa.Alloc); ok && la != B {
+					L, read = la, ix
+				}
+			}
+		}
+	}
+	if L == nil {
+		return ""
+	}
+	lt, ok := L.Type().Underlying().(*types.Pointer).Elem().Underlying().(*types.Array)
+	if !ok || lt.Len() != at.Len() {
+		return ""
+	}
+	step = "elem"
+	var elem ssa.Value
+	for _, r := range *L.Referrers() {
+		if x, ok := r.(*ssa.IndexAddr); ok {
+			if c, ok := x.Index.(*ssa.Const); ok && c.Value != nil && constant.Compare(c.Value, token.EQL, k.Value) {
+				for _, rr := range *x.Referrers() {
+					if st, ok := rr.(*ssa.Store); ok && st.Addr == ssa.Value(x) {
+						elem = st.Val
+					}
+				}
+			}
+		}
+	}
+	if elem == nil {
+		return ""
+	}
+	// render the filling value with L[i] replaced by L[k]'s element
+	li := e.X(fn, read)
+	if li == "" {
+		return ""
+	}
+	return strings.ReplaceAll(e.X(fn, fill.Val), li, e.X(fn, elem))
 }
